@@ -631,11 +631,21 @@ func (fe *FuncEnc) builtin(v ssa.Value, b *ssa.Builtin, c *ssa.CallCommon, st *S
 				fe.noteWrite(cell.varName)
 				st.heap[cell.varName] = nv
 				fe.sc.assertFor(nv, fmt.Sprintf("(forall ((x Int)) (! (=> (not (= (hv_base x) (hv_base (hv_org %s)))) (= (select %s x) (select %s x))) :pattern ((select %s x))))", args[0], nv, old, nv))
+				// the copied window: dst[i] == (old) src[i] for i < min(len(dst), len(src)); the other
+				// cells of dst's array are forgotten (a sound over-approximation)
+				if _, srcIsSlice := c.Args[1].Type().Underlying().(*types.Slice); srcIsSlice {
+					dCell := cell.addr(fmt.Sprintf("(hv_elem (hv_org %s) i)", args[0]))
+					sCell := cell.addr(fmt.Sprintf("(hv_elem (hv_org %s) i)", args[1]))
+					fe.sc.assertFor(nv, fmt.Sprintf("(forall ((i Int)) (! (=> (and (<= 0 i) (< i (hv_len %s)) (< i (hv_len %s))) (= (select %s %s) (select %s %s))) :pattern ((select %s %s))))", args[0], args[1], nv, dCell, old, sCell, nv, dCell))
+				}
 			}
 		}
 		if v != nil {
 			r := fe.freshVal(st, v)
 			fe.assume(st, fmt.Sprintf("(and (<= 0 %s) (<= %s (hv_len %s)))", r, r, args[0]))
+			if _, srcIsSlice := c.Args[1].Type().Underlying().(*types.Slice); srcIsSlice {
+				fe.assume(st, fmt.Sprintf("(= %s (ite (< (hv_len %s) (hv_len %s)) (hv_len %s) (hv_len %s)))", r, args[0], args[1], args[0], args[1]))
+			}
 		}
 	case "delete":
 		mt := c.Args[0].Type().Underlying().(*types.Map)
